@@ -73,6 +73,12 @@ def gen_inputs(ctx):
             for net in ("main", "test"):
                 out.append(("Construct", {"route": "seed_bytes", "seed": B(seed), "net": net}, ("seed_bytes", n, net)))
                 out.append(("Construct", {"route": "seed_hex", "seed": B(seed), "net": net}, ("seed_hex", n, net)))
+    # seeds that start (and end) with zero bytes, all-zero and all-0xff seeds: a seed is a byte string, not a number
+    for seed in (b"\x00" + bytes(range(1, 64)), b"\x00\x00" + bytes(range(2, 64)), bytes(15) + b"\x01", bytes(63) + b"\x01",
+                 bytes(range(1, 63)) + b"\x00\x00", bytes(64), bytes(16), b"\xff" * 64, b"\x00" + b"\xff" * 31):
+        for net in (("main", "test") if not q else ("main",)):
+            out.append(("Construct", {"route": "seed_bytes", "seed": B(seed), "net": net}, ("seed_bytes-zero-bytes", len(seed))))
+            out.append(("Construct", {"route": "seed_hex", "seed": B(seed), "net": net}, ("seed_hex-zero-bytes", len(seed), seed[0] == 0)))
     # the extended-key route is an Import event: the xprv the library itself printed for a mnemonic wallet
     from .. import refwallet as W
     for _ in range(3 if q else 30):
